@@ -9,7 +9,7 @@ LEVEL = "fault_enumeration"
 EXHAUSTIVE = True
 RULE = ("an explicit enumeration of tag values placed under the type-tag key (every JSON type, empty / dotted / "
         "relative / double-dotted strings, names of modules, functions, type variables, constants, non-serialisable "
-        "classes, abstract classes, packages whose import raises ImportError / RuntimeError / SyntaxError, a module whose "
+        "classes, abstract classes, dotted paths into classes (nested classes, attributes and methods of classes), packages whose import raises ImportError / RuntimeError / SyntaxError, a module whose "
         "__getattr__ fails with KeyError) run completely, plus random tags assembled from dots and "
         "identifier fragments; a tag that an independent resolver finds to be a deserialisable class is skipped.  "
         "Oracle: every one of four consecutive presentations of the document (module-level from_json and "
